@@ -267,7 +267,7 @@ pub fn check_pair(old: &T, new: &T, unambiguous: bool) -> Outcome {
 
 // ---------------------------------------------------------------- enumeration
 
-const LEAVES: [(u8, u64); 5] = [(b'M', 1), (b'E', 1), (b'E', 2), (b'D', 1), (b'D', 3)];
+const LEAVES: [(u8, u64); 6] = [(b'M', 1), (b'E', 1), (b'E', 2), (b'D', 0), (b'D', 1), (b'D', 3)];
 
 fn leaf(k: usize) -> T {
     let (c, n) = LEAVES[k];
@@ -358,7 +358,9 @@ fn gen_leaf(g: &mut Gen, sizes: &[u64]) -> T {
     match g.below(3) {
         0 => Sk::Mem(n),
         1 => Sk::Feed(n),
-        _ => Sk::Delay { len: n },
+        // a delay of length 0 still owns its two index words
+        // (not among the fresh shapes of the `distinct` space, which must match nothing)
+        _ => Sk::Delay { len: if sizes[0] < 1000 && g.bool(1, 4) { 0 } else { n } },
     }
 }
 
@@ -514,7 +516,8 @@ fn gen_distinct(g: &mut Gen, next: &mut u64, budget: &mut i64, depth: u32) -> T 
         return match g.below(3) {
             0 => Sk::Mem(n),
             1 => Sk::Feed(n),
-            _ => Sk::Delay { len: n },
+            // n is unique per leaf, so n - 1 keeps delays pairwise distinct and reaches length 0
+            _ => Sk::Delay { len: n - 1 },
         };
     }
     let cs = g.vec(0, 4, |g| Box::new(gen_distinct(g, next, budget, depth + 1)));
@@ -624,7 +627,7 @@ fn shrink_tree(t: &T) -> Vec<T> {
                 *n = Sk::Feed(k - 1);
                 out.push(c);
             }
-            Sk::Delay { len } if len > 1 => {
+            Sk::Delay { len } if len > 0 => {
                 *n = Sk::Delay { len: len - 1 };
                 out.push(c);
             }
@@ -640,12 +643,12 @@ impl Prop for C08 {
     }
     fn spaces(&self, tier: Tier) -> Vec<Space> {
         let n4 = small(4).len() as u64;
-        let mut v = vec![Space { name: "pairs4", size: n4 * n4, exhaustive: true, chunk: 8192, case_timeout_s: 5.0, what: "all ordered pairs of layouts with <= 4 nodes (leaves M1,E1,E2,D1,D3; calls of arity 0-3)" }];
+        let mut v = vec![Space { name: "pairs4", size: n4 * n4, exhaustive: true, chunk: 8192, case_timeout_s: 5.0, what: "all ordered pairs of layouts with <= 4 nodes (leaves M1,E1,E2,D0,D1,D3; calls of arity 0-3)" }];
         match tier {
             Tier::Quick => {
-                v.push(Space { name: "edit", size: 120_000, exhaustive: false, chunk: 2000, case_timeout_s: 5.0, what: "random layouts (<= 40 nodes, leaf sizes <= 64) paired with an edit-script derivative" });
-                v.push(Space { name: "indep", size: 40_000, exhaustive: false, chunk: 2000, case_timeout_s: 5.0, what: "independent random layout pairs over a small leaf alphabet" });
-                v.push(Space { name: "distinct", size: 80_000, exhaustive: false, chunk: 2000, case_timeout_s: 5.0, what: "layouts with pairwise distinct leaf shapes, new = old after removals/additions of subtrees (survivors unambiguous)" });
+                v.push(Space { name: "edit", size: 400_000, exhaustive: false, chunk: 2000, case_timeout_s: 5.0, what: "random layouts (<= 40 nodes, leaf sizes <= 64) paired with an edit-script derivative" });
+                v.push(Space { name: "indep", size: 100_000, exhaustive: false, chunk: 2000, case_timeout_s: 5.0, what: "independent random layout pairs over a small leaf alphabet" });
+                v.push(Space { name: "distinct", size: 300_000, exhaustive: false, chunk: 2000, case_timeout_s: 5.0, what: "layouts with pairwise distinct leaf shapes, new = old after removals/additions of subtrees (survivors unambiguous)" });
             }
             Tier::Thorough => {
                 let n5 = small(5).len() as u64;
@@ -714,7 +717,7 @@ impl Prop for C08 {
         out
     }
     fn rule(&self) -> String {
-        "Cases are ordered pairs (old layout, new layout). Exhaustive: every ordered pair of layouts with at most 4 (quick) / 5 (thorough) nodes over leaves {Mem1,Feed1,Feed2,Delay1,Delay3} and calls of arity 0-3. Random: a layout of <=40 nodes paired with the result of 1-4 edits (delete/insert subtree, resize leaf, duplicate sibling, wrap, unwrap), independent pairs over a 2-size alphabet, and layouts with pairwise distinct leaf shapes edited by removals/additions only. Oracle: None iff identical; total_size; every patch in bounds and connecting subtrees of identical shape; destination ranges disjoint; order preserved; tagged application leaves all other words zero; survivors: where the surviving set is script-independent (pure removal, pure addition, or pairwise distinct leaf shapes) words carried >= W* (max words surviving under a removal/addition script, independent DP) and, for distinct shapes, each carried leaf sits at its own new address. Non-trivial = layouts differ and both contain a call with >=2 children; distinct by the rendered pair.".into()
+        "Cases are ordered pairs (old layout, new layout). Exhaustive: every ordered pair of layouts with at most 4 (quick) / 5 (thorough) nodes over leaves {Mem1,Feed1,Feed2,Delay0,Delay1,Delay3} and calls of arity 0-3. Random: a layout of <=40 nodes paired with the result of 1-4 edits (delete/insert subtree, resize leaf, duplicate sibling, wrap, unwrap), independent pairs over a 2-size alphabet, and layouts with pairwise distinct leaf shapes edited by removals/additions only. Oracle: None iff identical; total_size; every patch in bounds and connecting subtrees of identical shape; destination ranges disjoint; order preserved; tagged application leaves all other words zero; survivors: where the surviving set is script-independent (pure removal, pure addition, or pairwise distinct leaf shapes) words carried >= W* (max words surviving under a removal/addition script, independent DP) and, for distinct shapes, each carried leaf sits at its own new address. Non-trivial = layouts differ and both contain a call with >=2 children; distinct by the rendered pair.".into()
     }
     fn assumptions(&self) -> Vec<String> {
         vec![
